@@ -82,6 +82,7 @@ CleanEnd(h, S) ==
   ELSE IF ~SgrDefault(S) THEN "sgr-not-reset"
   ELSE IF S.rx # 0 THEN "kitty-chunking-open"
   ELSE IF S.sync # 0 THEN "synchronized-update-open"
+  ELSE IF h.wrong_stream THEN "wrong-stream: part of the output went to the stdout of import time, not to sys.stdout"
   ELSE IF h.outcome # "ok" THEN "outcome: draw() raised " \o h.outcome
   ELSE IF ~h.attrs_equal THEN "termios: terminal attributes differ after draw()"
   ELSE IF h.fin # 1 THEN "finalize: render data finalized " \o ToString(h.fin) \o " times"
@@ -94,6 +95,7 @@ FaultEnd(h, S) ==
   \* what the property is about
   IF N > 0 /\ Toks[N].k = "partial" /\ Toks[N].g \notin {"esc", "csi", "scs"}
     THEN "unterminated: the output ends inside a control string (" \o Toks[N].g \o ") - the terminal keeps swallowing output"
+  ELSE IF h.wrong_stream THEN "wrong-stream: part of the clean-up went to the stdout of import time, not to sys.stdout"
   ELSE IF S.rx # 0 THEN "kitty-chunking-open: a chunked graphics transfer was left without its last chunk"
   ELSE IF ~S.vis THEN "cursor-hidden: cursor left hidden"
   ELSE IF ~SgrDefault(S) THEN "sgr-not-reset: text attributes left set"
